@@ -536,6 +536,25 @@ func runC12(c *Cfg) {
 	}
 	close(ch)
 	wg.Wait()
+	// existing output files: refuse without --force, replace with it (c12_overwrite.go)
+	owr := root.Sub()
+	och := make(chan *c12OwCase)
+	for w := 0; w < 16; w++ {
+		wg.Add(1)
+		go func() {
+			defer wg.Done()
+			for k := range och {
+				rn.runOverwrite(k)
+			}
+		}()
+	}
+	for i, n := 0, c.Pick(64, 800); i < n; i++ {
+		k := c12GenOwCase(owr.Sub(), i)
+		c.Case(fmt.Sprint(k.describe()), true)
+		och <- k
+	}
+	close(och)
+	wg.Wait()
 	// fixed witnesses of the known findings and of the Lean counterexample (replayed on the CLI)
 	c12Witnesses(rn)
 }
